@@ -16,10 +16,25 @@
 (*              flushed when it holds MORE than batch rows and at the end; *)
 (*              flushed rows go downstream with updated = FALSE            *)
 (* rewrite drops the table first; append and rewrite never use keys.       *)
+(*                                                                         *)
+(* What continues downstream.  Before a row reaches the writer dump_to_sql *)
+(* converts its array/object cells to what the database can hold (JSON     *)
+(* text on SQLite), and the writer converts fallback types (duration,      *)
+(* geopoint, yearmonth) to text.  WriterGetsCopy = FALSE is the pinned     *)
+(* code: the conversion is done in place and the converted row continues   *)
+(* (TLC refutes Downstream as soon as Converts holds).  WriterGetsCopy =   *)
+(* TRUE is the repair (fix: commit): the writer gets a copy, the originals *)
+(* wait in a FIFO and each report of the writer releases the head of that  *)
+(* FIFO.  That pairing is sound because of PairingOK - the writer reports  *)
+(* every row exactly once and in input order - which TLC checks here and   *)
+(* which the replayed histories check on the real writer (the flags would  *)
+(* be attached to the wrong rows otherwise: FlagsTruthful).                *)
 (***************************************************************************)
 EXTENDS Naturals, Sequences, FiniteSets, TLC, SequencesExt, Json
 
-CONSTANTS MaxDumps, MaxRows, Batches
+CONSTANTS MaxDumps, MaxRows, Batches,
+          WriterGetsCopy,   \* TRUE: the repaired dumper; FALSE: conversion in place (pinned)
+          Converts          \* TRUE: the resource has cells the database cannot hold as they are (array, object, fallback types)
 
 Absent == <<[k |-> 0, v |-> "absent"]>>
 Keys == {1, 2}
@@ -84,13 +99,19 @@ ModeOK(n) ==
            /\ KeysOf(t) = KeysOf(prev) \cup KeysOf(d.rows)
            /\ \A i \in DOMAIN t : IF t[i].k \in KeysOf(d.rows) THEN t[i] = LastFor(d.rows, t[i].k)
                                   ELSE \E j \in DOMAIN prev : prev[j] = t[i]
+\* the writer reports every row of the dump exactly once, in input order (log[n].out are the writer's reports)
+PairingOK(n) == log[n].out = hist[n].rows
 \* rows continue downstream unchanged and in order; the flags say truthfully whether a row replaced an existing one
-Downstream(n) == log[n].out = hist[n].rows
+Untouched(r) == [k |-> r.k, v |-> r.v, converted |-> FALSE]
+Delivered(n) == IF WriterGetsCopy
+                THEN [i \in DOMAIN log[n].out |-> Untouched(hist[n].rows[i])]                       \* the head of the FIFO of originals
+                ELSE [i \in DOMAIN log[n].out |-> [k |-> log[n].out[i].k, v |-> log[n].out[i].v, converted |-> Converts]]   \* the writer's own row
+Downstream(n) == Delivered(n) = [i \in DOMAIN hist[n].rows |-> Untouched(hist[n].rows[i])]
 FlagsTruthful(n) == LET d == hist[n] prev == PrevTable(n) IN
   (d.mode = "update" /\ OnePerKey(prev)) =>
      \A i \in DOMAIN d.rows : log[n].flags[i] = (d.rows[i].k \in KeysOf(prev) \/ \E j \in 1..(i - 1) : d.rows[j].k = d.rows[i].k)
 NeverFlagsOutsideUpdate(n) == hist[n].mode # "update" => \A i \in DOMAIN log[n].flags : ~log[n].flags[i]
-AllDumpsOK == \A n \in DOMAIN hist : ModeOK(n) /\ Downstream(n) /\ FlagsTruthful(n) /\ NeverFlagsOutsideUpdate(n)
+AllDumpsOK == \A n \in DOMAIN hist : ModeOK(n) /\ PairingOK(n) /\ Downstream(n) /\ FlagsTruthful(n) /\ NeverFlagsOutsideUpdate(n)
 
 Export == (cur = NoDump /\ Len(hist) > 0) =>
    PrintT(<<"CASE", ToJson([bloom |-> bloom, batch |-> batch, hist |-> hist,
